@@ -6,7 +6,7 @@ META = dict(
                        "DiGraph.remove_nodes_connections", "DiGraph.remove_successors_nodes",
                        "DiGraph.remove_previous_connections", "DiGraph.sorting", "DiGraph._sorting", "DiGraph.copy"],
     stubs=[],
-    outside=["more than 5 nodes or more than 7 operations per history", "operations that violate the documented call protocol "
+    outside=["more than 5 nodes; histories longer than 8 free operations (or a generated DAG of <= 5 nodes followed by 4 free removal operations)", "operations that violate the documented call protocol "
              "(edges between absent nodes, removing a node that still has predecessors, removing connections of a node "
              "that was not removed) - the harness skips them using its own reference state"],
     assumptions=["acyclicity is maintained by the harness: an edge is admitted only if the reference state has no path back"],
@@ -44,12 +44,51 @@ def _check(g, present, edges):
             return "edge %s->%s but order %s" % (u, v, names)
     return None
 
-def _history(n, ops, obs, use_copy):
+class _Budget(Exception):
+    pass
+
+_CALLS = [0]
+_real_sorting = G.DiGraph._sorting
+
+def _budgeted(self, notsorted_list, predecessors):
+    _CALLS[0] += 1
+    if _CALLS[0] > 90:
+        raise _Budget("DiGraph._sorting called more than 90 times in a history of at most 15 operations over 5 nodes: sorting does not terminate")
+    return _real_sorting(self, notsorted_list, predecessors)
+
+G.DiGraph._sorting = _budgeted
+
+def _history(n, ops, obs, use_copy, pre_edges=()):
     """Run ops on a real DiGraph, mirrored on a reference state; returns error text or None."""
+    try:
+        return _history_inner(n, ops, obs, use_copy, pre_edges)
+    except _Budget as e:
+        return "history %s (after edges %s): %s" % (T.real(list(ops)), list(pre_edges), e)
+
+def _history_inner(n, ops, obs, use_copy, pre_edges=()):
+    _CALLS[0] = 0
     nodes = [Nd("n%d" % i) for i in range(n)]
     g = G.DiGraph(name="g")
+    if pre_edges:
+        ops = [(0, i, 0) for i in range(n)] + [(1, a, b) for a, b in pre_edges] + list(ops)
+        obs = obs << (n + len(pre_edges)) | (1 << (n + len(pre_edges) - 1))
     present, wip, edges, log = set(), set(), set(), []
-    for t, (k, i, j) in enumerate(ops):
+    t = -1
+    ops = list(ops)
+    while ops:
+        t += 1
+        op = ops.pop(0)
+        if len(op) == 1:
+            # selector form: pick the (op[0] mod m)-th of the m removal operations that are valid right now
+            ready = sorted(x for x in present if not any(v == x for (u, v) in edges))
+            valid = [(2, int(x[1:]), 0) for x in ready] + [(3, int(x[1:]), 0) for x in sorted(wip)] + \
+                    [(4, int(x[1:]), 0) for x in sorted(wip)] + \
+                    [(5, int(x[1:]), int(y[1:])) for x in ready for y in ready if x < y]
+            if not valid:
+                break
+            k, i, j = valid[op[0] % len(valid)]
+        else:
+            k, i, j = op
         a, b = nodes[i], nodes[j]
         if k == 0:
             if a.name in present or a.name in wip:
@@ -65,6 +104,14 @@ def _history(n, ops, obs, use_copy):
             if a.name not in present or any(v == a.name for (u, v) in edges):
                 continue
             g.remove_nodes(a); present.discard(a.name); wip.add(a.name); log.append("remove_nodes(%s)" % a)
+        elif k == 5:
+            # two ready nodes removed in one call
+            if i == j or a.name not in present or b.name not in present:
+                continue
+            if any(v in (a.name, b.name) for (u, v) in edges):
+                continue
+            g.remove_nodes([a, b]); present -= {a.name, b.name}; wip |= {a.name, b.name}
+            log.append("remove_nodes([%s, %s])" % (a, b))
         elif k == 3:
             if a.name not in wip:
                 continue
@@ -119,6 +166,27 @@ def build(tier, seed, exclude):
             if err:
                 return T.fail(err)
             return True
+        """, timeout=to)
+    # concrete (seeded) DAG shapes, symbolic removal histories on top of them
+    def rand_dag(k):
+        edges = [(a, b) for a in range(k) for b in range(a + 1, k) if rnd.random() < 0.5]
+        perm = list(range(k)); rnd.shuffle(perm)
+        edges = [(perm[a], perm[b]) for a, b in edges]
+        rnd.shuffle(edges)
+        return edges
+    dags = [[(1, 3), (0, 3), (2, 0), (0, 1)], [(2, 0), (0, 1), (0, 3), (1, 3)], [(0, 1), (0, 2), (1, 3), (2, 3)], [(0, 1), (1, 2), (2, 3)]]
+    dags += [rand_dag(4) for _ in range(5 if quick else 20)] + [rand_dag(5) for _ in range(4 if quick else 20)]
+    for d, edges in enumerate(dags):
+        k = 1 + max([0] + [max(a, b) for a, b in edges])
+        k = max(k, 4)
+        Lr = 4
+        params = ", ".join(f"s{t}: int" for t in range(Lr)) + ", obs: int"
+        pre = [" and ".join(f"0 <= s{t} < 12" for t in range(Lr)), f"0 <= obs < {2 ** Lr}"]
+        ops = "[" + ", ".join(f"(s{t},)" for t in range(Lr)) + "]"
+        g.cond(f"h_dag{d:02d}", params, pre, f"""
+            err = _history({k}, {ops}, obs, False, pre_edges={edges!r})
+            T.reach()
+            return T.fail(err) if err else True
         """, timeout=to)
     # fully symbolic kinds (search)
     Ls = 5
